@@ -81,7 +81,11 @@ func sendRequestToTarget(req *http.Request, httpsDefault bool) (*http.Response, 
 	removeHopByHopHeaders(req.Header)
 
 	slog.Debug("Sending request", "url", req.URL, "method", req.Method)
-	resp, err := http.DefaultClient.Do(req)
+	// A redirect is the origin's answer to the client's request: it is relayed (status, Location, body) and the
+	// client decides what to do with it; the proxy does not follow it on the client's behalf.
+	client := *http.DefaultClient
+	client.CheckRedirect = func(*http.Request, []*http.Request) error { return http.ErrUseLastResponse }
+	resp, err := client.Do(req)
 	if err != nil {
 		slog.Error("Error sending request to target", "url", req.URL, "error", err)
 		return nil, fmt.Errorf("%w: %v", ErrSendRequestFailed, err)
